@@ -4,7 +4,7 @@
    constructors) exactly.  Oracle answers (brentq / quadratic root) come with the case and their
    defining equation is re-evaluated here in exact arithmetic. *)
 From Coq Require Import List Arith NArith ZArith QArith Qabs Bool.
-From TLV Require Import Base.Shape Base.Tensor Model.Structure Model.StructureQ Corr.Common.
+From TLV Require Import Base.Shape Base.Tensor Model.Structure Model.StructureQ Model.StructureHooi Corr.Common.
 Import ListNotations.
 Local Open Scope nat_scope.
 
@@ -37,6 +37,10 @@ Inductive op :=
 | QTucker (shape ranks : list nat) (X core : list Q) (fs : list (list Q)) (tol_orth tol_proj : Q)
 | CQOrth (k : nat) (M : list CQ) (tol : Q)                       (* complex data: M^H M = I *)
 | CQTucker (shape ranks : list nat) (X core : list CQ) (fs : list (list CQ)) (tol_orth tol_proj : Q)   (* core = X x_k U_k^H *)
+(* control flow of partial_tucker / tucker (HOOI): the log of svd_interface / multi_mode_dot calls, "the returned core is the output of the
+   last full projection and no factor was assigned after it", "every returned factor is the U of the last SVD for its position" *)
+| DHooi (ik : init_kind) (k : nat) (mask tol_set : bool) (n_iter : nat) (decisions : list bool)
+| DHooiFixed (n_modes n_fixed : nat) (mask tol_set : bool) (n_iter : nat) (decisions : list bool)
 | QCpNorm (R : nat) (w : option (list Q)) (fs scales : list (list Q)) (tol : Q) (wout : list Q) (fout : list (list Q)).
 
 Definition is_frac (s : rspec) : bool := match s with RFrac _ => true | _ => false end.
@@ -95,6 +99,13 @@ Definition run (o : op) : res (list (list nat)) :=
                   forallb (fun p => q_list_close tol tol (fst p) (snd p)) (combine fm fout) then 1 else 0]]
       | None => Ok [[2]]                    (* the oracle tape does not solve its equation: harness problem, not a verdict *)
       end
+  | DHooi ik k mask tol_set n decisions =>
+      let t := hooi_trace ik k mask tol_set n decisions in
+      Ok [map code t; [if ends_projected t then 1 else 0]; [if factors_from_svd k t then 1 else 0]]
+  | DHooiFixed nm nf mask tol_set n decisions =>
+      let t := tucker_fixed_trace nm nf mask tol_set n decisions in
+      let inner := hooi_trace InitUser (nm - nf) mask tol_set n decisions in
+      Ok [map code t; [if (nf <? nm) && ends_projected inner then 1 else 0]; [if (nf <? nm) && factors_from_svd (nm - nf) inner then 1 else 0]]
   | DNorm2 d nf tol_set n decisions =>
       let t := trace_run2 d nf tol_set n decisions in
       Ok [[length (updates t)]; [if ends_normalised t then 1 else 0]; [if any_normalise t then 1 else 0]]
